@@ -225,6 +225,10 @@ pub enum TlsConnectionError<E> {
     #[error("No domain found in URI")]
     NoDomain,
 
+    /// The host in the URI is not a valid TLS server name.
+    #[error("Host in URI is not a valid TLS server name: {0}")]
+    InvalidDomain(String),
+
     /// The TLS feature is disabled, but TLS was requested.
     #[error("TLS is not enabled, can't connect to https")]
     TlsDisabled,
